@@ -87,6 +87,10 @@ Qed.
 (* a value shorter than 4 GB: cnt1 = strlen(v) - 1 is kept in a 32-bit variable *)
 Definition small (v : list byte) : Prop := Z.of_nat (length v) < 4294967296.
 Definition val_ok (v : list byte) : Prop := Forall nz_byte v /\ small v.
+(* what a function called from a value gets as its argument: a C string that fits the line buffer *)
+Definition arg_ok (o : list byte) : Prop := Forall nz_byte o /\ Z.of_nat (length o) < config_buff.
+Lemma arg_val o : arg_ok o -> val_ok o.
+Proof. intros [H L]. split; [exact H|]. unfold small. pose proof cb_bounds. lia. Qed.
 Lemma lplace_len pre v : Z.of_nat (length pre) < maxj -> v <> [] ->
   Z.of_nat (length pre) < Z.of_nat (length (lplace pre v)) <= maxj.
 Proof.
@@ -201,6 +205,12 @@ Variable exec_out : list byte -> exec_answer.
 Variable dir_list : list byte -> dir_answer.
 Hypothesis exec_ok : forall c o, exec_out c = ExecOut o -> Forall is_byte o /\ small o.
 Hypothesis dir_ok : forall d ns, dir_list d = DirList ns -> Forall (Forall nz_byte) ns.
+(* the functions the application registered: their names are C strings; what they return is a C string
+   shorter than 4 GB whenever their argument is a C string that fits the line buffer *)
+Variable extra : list (list byte * Z).
+Variable ufn : Z -> option (list byte) -> option (list byte).
+Hypothesis extra_nz : Forall (fun e => Forall nz_byte (fst e)) extra.
+Hypothesis ufn_ok : forall code a v, (forall o, a = Some o -> arg_ok o) -> ufn code a = Some v -> val_ok v.
 
 Lemma appname_nz : val_ok (appname_text progname progver).
 Proof.
@@ -406,7 +416,7 @@ Proof.
 Qed.
 
 Lemma call_builtin_exact code o rest st : Forall nz_byte o -> Z.of_nat (length o) < 65536 ->
-  call_builtin progname progver exec_out dir_list code (Some (cstr o rest)) st = Ok (s_builtin progname progver exec_out dir_list code (Some o) st).
+  call_builtin progname progver exec_out dir_list ufn code (Some (cstr o rest)) st = Ok (s_builtin progname progver exec_out dir_list ufn code (Some o) st).
 Proof.
   intros Ho Hl. unfold call_builtin, s_builtin.
   destruct (code =? 0); [reflexivity|]. destruct (code =? 1); [reflexivity|].
@@ -414,16 +424,17 @@ Proof.
   destruct (code =? 5); [rewrite builtin_put_exact by assumption; reflexivity|].
   destruct (code =? 2); [rewrite builtin_exec_exact by assumption; reflexivity|].
   destruct (code =? 3); [reflexivity|].
-  rewrite builtin_dirscan_exact by assumption. reflexivity.
+  destruct (code =? 6); [rewrite builtin_dirscan_exact by assumption; reflexivity|].
+  unfold builtin_user. rewrite (strlen_cstr o rest Ho). cbn [bind]. rewrite (take_str_cstr o rest Ho). reflexivity.
 Qed.
 
 Lemma call_builtin_null code st :
-  call_builtin progname progver exec_out dir_list code None st = Ok (s_builtin progname progver exec_out dir_list code None st).
+  call_builtin progname progver exec_out dir_list ufn code None st = Ok (s_builtin progname progver exec_out dir_list ufn code None st).
 Proof.
   unfold call_builtin, s_builtin.
   destruct (code =? 0); [reflexivity|]. destruct (code =? 1); [reflexivity|].
   destruct (code =? 4); [reflexivity|]. destruct (code =? 5); [reflexivity|].
-  destruct (code =? 2); [reflexivity|]. destruct (code =? 3); reflexivity.
+  destruct (code =? 2); [reflexivity|]. destruct (code =? 3); [reflexivity|]. destruct (code =? 6); reflexivity.
 Qed.
 
 (* what a built-in yields is NUL-free and short, and it keeps the store well-formed and sorted *)
@@ -434,11 +445,12 @@ Proof.
   - pose proof (words_short o) as H. rewrite Forall_forall in H. specialize (H w Hin). unfold small in *. lia.
 Qed.
 
-Lemma s_builtin_ok code a st : store_ok st -> (forall o, a = Some o -> val_ok o) ->
-  let '(out, st') := s_builtin progname progver exec_out dir_list code a st in
+Lemma s_builtin_ok code a st : store_ok st -> (forall o, a = Some o -> arg_ok o) ->
+  let '(out, st') := s_builtin progname progver exec_out dir_list ufn code a st in
   store_ok st' /\ (forall v, out = BStr v -> val_ok v).
 Proof.
-  intros Hst Ha. unfold s_builtin.
+  intros Hst Ha0. assert (Ha : forall o, a = Some o -> val_ok o) by (intros o E; apply arg_val; now apply Ha0).
+  unfold s_builtin.
   destruct (code =? 0). { split; auto. intros v E. injection E as <-. apply appname_nz. }
   destruct (code =? 1). { split; auto. intros v E. injection E as <-. exact progver_nz. }
   destruct (code =? 4).
@@ -465,6 +477,9 @@ Proof.
     destruct (exec_ok cmd (c :: ct) Ex) as [Hb Hs]. pose proof (exec_text_ok (c :: ct) Hb Hs) as G.
     intros H. injection H as <-. exact G. }
   destruct (code =? 3). { destruct a; split; auto; discriminate. }
+  destruct (code =? 6).
+  2:{ split; auto. intros v E. destruct (ufn code a) as [x|] eqn:Eu; [|discriminate].
+      cbn [bres_of] in E. injection E as <-. eapply ufn_ok; eassumption. }
   split; auto. intros v. unfold s_dirscan. destruct a as [o|]; [|discriminate].
   destruct (words o) as [|d [|? ?]]; try discriminate.
   destruct (dir_list d) as [| |names] eqn:Ed; try discriminate.
@@ -537,6 +552,11 @@ Proof.
   inversion Hr; subst. split; [assumption|simpl in *; lia].
 Qed.
 
+Lemma lfinish_arg_ok pre o : pre_ok pre -> lfinish pre = Some o -> arg_ok o.
+Proof.
+  intros (A & B & _). unfold lfinish. destruct (Z.ltb_spec (Z.of_nat (length pre)) config_buff); [|discriminate].
+  intros E. injection E as <-. split; [now apply cut0_nz|]. pose proof (cut0_len pre). lia.
+Qed.
 Lemma lfinish_ok pre o : pre_ok pre -> lfinish pre = Some o -> val_ok o.
 Proof.
   intros (A & B & _). unfold lfinish. destruct (_ <? _); [|discriminate]. intros E. injection E as <-.
@@ -547,7 +567,7 @@ Lemma lbody_ok self n :
   (forall s pre q1 q2 st, (length s < n)%nat -> Forall nz_byte s -> pre_ok pre -> store_ok st ->
                           llres_ok (self s pre q1 q2 st)) ->
   forall s pre q1 q2 st, (length s <= n)%nat -> Forall nz_byte s -> pre_ok pre -> store_ok st ->
-                         llres_ok (lbody genv progname progver exec_out dir_list self s pre q1 q2 st).
+                         llres_ok (lbody genv progname progver exec_out dir_list extra ufn self s pre q1 q2 st).
 Proof.
   intros Hself s pre q1 q2 st Hn Hs Hpre Hst.
   unfold lbody. destruct s as [|c t]; [split; assumption|].
@@ -566,7 +586,7 @@ Proof.
     - apply Hself; [lia|assumption| |assumption]. apply pre_ok_snoc; auto. now apply esc_nz.
     - apply Hself; [lia|assumption| |assumption]. apply pre_ok_snoc2; auto. }
   destruct (c =? 37).
-  { destruct (find_call builtin_table t) as [[code nlen]|] eqn:Efc.
+  { destruct (find_call (full_table extra) t) as [[code nlen]|] eqn:Efc.
     2:{ destruct t as [|d t']; [apply Hlit|].
         apply Forall_nz_cons in Ht. destruct Ht as [Hd Ht']. cbn [length] in Hn.
         apply Hself; [lia|assumption| |assumption]. apply pre_ok_snoc; auto. }
@@ -585,13 +605,13 @@ Proof.
     destruct (self (removelast a) [] false false st) as [pre1 st1|st1|e|] eqn:Ein; [| |exact I|exact Hin].
     - destruct Hin as [Hpre1 Hst1].
       pose proof (s_builtin_ok code (lfinish pre1) st1 Hst1) as Hb.
-      destruct (s_builtin progname progver exec_out dir_list code (lfinish pre1) st1) as [out st2].
+      destruct (s_builtin progname progver exec_out dir_list ufn code (lfinish pre1) st1) as [out st2].
       destruct Hb as (Hst2 & Hout).
-      { intros o E. eapply lfinish_ok; eassumption. }
+      { intros o E. eapply lfinish_arg_ok; eassumption. }
       destruct out as [|[|o ot]|e]; try exact I; try (apply Hself; [lia|assumption|assumption|assumption]).
       apply Hself; [lia|assumption| |assumption]. apply pre_ok_lplace; [assumption|assumption| |discriminate]. now apply Hout.
     - pose proof (s_builtin_ok code None st1 Hin) as Hb.
-      destruct (s_builtin progname progver exec_out dir_list code None st1) as [out st2].
+      destruct (s_builtin progname progver exec_out dir_list ufn code None st1) as [out st2].
       destruct Hb as (Hst2 & Hout); [discriminate|].
       destruct out as [|[|o ot]|e]; try exact I; try (apply Hself; [lia|assumption|assumption|assumption]).
       apply Hself; [lia|assumption| |assumption]. apply pre_ok_lplace; [assumption|assumption| |discriminate]. now apply Hout. }
@@ -608,10 +628,10 @@ Qed.
 
 Lemma lloop_ok : forall fuel s pre q1 q2 st,
   (length s < fuel)%nat ->
-  Forall nz_byte s -> pre_ok pre -> store_ok st -> llres_ok (lloop genv progname progver exec_out dir_list fuel s pre q1 q2 st).
+  Forall nz_byte s -> pre_ok pre -> store_ok st -> llres_ok (lloop genv progname progver exec_out dir_list extra ufn fuel s pre q1 q2 st).
 Proof.
   induction fuel as [|f IH]; intros s pre q1 q2 st Hf Hs Hp Hst; [lia|].
-  cbn [lloop]. apply (lbody_ok (lloop genv progname progver exec_out dir_list f) (length s)); auto.
+  cbn [lloop]. apply (lbody_ok (lloop genv progname progver exec_out dir_list extra ufn f) (length s)); auto.
   intros s0 pre0 q0 q3 st0 H0 H1 H2 H3. apply IH; auto. lia.
 Qed.
 
@@ -725,8 +745,8 @@ Qed.
 Lemma xbody_lbody s rest pre nbt q1 q2 st :
   (length s <= n)%nat -> Forall nz_byte s -> (length s < CB)%nat -> pre_ok pre ->
   length (bytes pre ++ nbt) = CB -> store_ok st ->
-  lrel (xbody genv progname progver exec_out dir_list xself (cstr s rest) (bytes pre ++ nbt) (Z.of_nat (length pre)) q1 q2 st)
-       (lbody genv progname progver exec_out dir_list lself s pre q1 q2 st).
+  lrel (xbody genv progname progver exec_out dir_list extra ufn xself (cstr s rest) (bytes pre ++ nbt) (Z.of_nat (length pre)) q1 q2 st)
+       (lbody genv progname progver exec_out dir_list extra ufn lself s pre q1 q2 st).
 Proof.
   intros Hn Hs Hcb Hpre Hlen Hst.
   pose proof CB_eq as HCB. pose proof cb_bounds as Hcbb. pose proof maxj_eq as Hm.
@@ -757,8 +777,8 @@ Proof.
       + apply step_lit; auto; try lia. now apply esc_nz.
       + apply step_lit2; auto; try lia. }
   destruct (c =? 37).
-  { rewrite (find_builtin_cstr builtin_table t rest builtin_table_nz Ht). cbn [bind].
-    destruct (find_call builtin_table t) as [[code nlen]|] eqn:Efc.
+  { rewrite (find_builtin_cstr (full_table extra) t rest (full_table_nz extra extra_nz) Ht). cbn [bind].
+    destruct (find_call (full_table extra) t) as [[code nlen]|] eqn:Efc.
     2:{ rewrite rdn0_cstr. cbn [bind]. destruct t as [|d t'].
         - cbn [hd Z.eqb]. apply step_lit; auto; simpl; lia.
         - pose proof (Forall_nz_cons _ _ Ht) as [Hd Ht']. cbn [length] in Hn, Hcb.
@@ -805,19 +825,19 @@ Proof.
       rewrite finish_list; [|exact Hlen1|exact (proj1 Hpre1)|exact (proj1 (proj2 Hpre1))|].
       2:{ intros Hlt. pose proof (cut0_len pre1). rewrite cstr_length, repeat_length. lia. }
       cbn [bind].
-      pose proof (s_builtin_ok code (lfinish pre1) st1 Hst1 ltac:(intros o E; eapply lfinish_ok; eassumption)) as Hb.
-      assert (Ecall : call_builtin progname progver exec_out dir_list code
+      pose proof (s_builtin_ok code (lfinish pre1) st1 Hst1 ltac:(intros o E; eapply lfinish_arg_ok; eassumption)) as Hb.
+      assert (Ecall : call_builtin progname progver exec_out dir_list ufn code
                         match lfinish pre1 with
                         | Some o => Some (cstr o (skipn (S (length o)) (cstr (removelast a) (repeat None (CB - length a)))))
                         | None => None
-                        end st1 = Ok (s_builtin progname progver exec_out dir_list code (lfinish pre1) st1)).
+                        end st1 = Ok (s_builtin progname progver exec_out dir_list ufn code (lfinish pre1) st1)).
       { destruct (lfinish pre1) as [o|] eqn:Ef; [|apply call_builtin_null].
         destruct (lfinish_ok pre1 o Hpre1 Ef) as [Ho _].
         apply call_builtin_exact; [exact Ho|].
         unfold lfinish in Ef. destruct (Z.ltb_spec (Z.of_nat (length pre1)) config_buff); [|discriminate].
         injection Ef as <-. pose proof (cut0_len pre1). lia. }
       rewrite Ecall. cbn [bind]. clear Ecall.
-      destruct (s_builtin progname progver exec_out dir_list code (lfinish pre1) st1) as [out st2].
+      destruct (s_builtin progname progver exec_out dir_list ufn code (lfinish pre1) st1) as [out st2].
       destruct Hb as (Hst2 & Hout).
       destruct out as [|[|o ot]|e]; try reflexivity.
       + apply step_skip; [lia|assumption|lia|assumption|assumption|assumption].
@@ -826,7 +846,7 @@ Proof.
     - (* the argument text could not be expanded: the function gets NULL *)
       rewrite Hin. cbn [bind]. rewrite call_builtin_null. cbn [bind].
       pose proof (s_builtin_ok code None st1 Hok ltac:(discriminate)) as Hb.
-      destruct (s_builtin progname progver exec_out dir_list code None st1) as [out st2].
+      destruct (s_builtin progname progver exec_out dir_list ufn code None st1) as [out st2].
       destruct Hb as (Hst2 & Hout).
       destruct out as [|[|o ot]|e]; try reflexivity.
       + apply step_skip; [lia|assumption|lia|assumption|assumption|assumption].
@@ -852,12 +872,12 @@ End Step.
 Theorem xloop_lloop : forall fuel s rest pre tl q1 q2 st,
   (length s < fuel)%nat ->
   Forall nz_byte s -> (length s < CB)%nat -> pre_ok pre -> length (bytes pre ++ tl) = CB -> store_ok st ->
-  lrel (xloop genv progname progver exec_out dir_list fuel (cstr s rest) (bytes pre ++ tl) (Z.of_nat (length pre)) q1 q2 st)
-       (lloop genv progname progver exec_out dir_list fuel s pre q1 q2 st).
+  lrel (xloop genv progname progver exec_out dir_list extra ufn fuel (cstr s rest) (bytes pre ++ tl) (Z.of_nat (length pre)) q1 q2 st)
+       (lloop genv progname progver exec_out dir_list extra ufn fuel s pre q1 q2 st).
 Proof.
   induction fuel as [|f IH]; intros s rest pre tl q1 q2 st Hf Hs Hcb Hpre Hlen Hst; [lia|].
   cbn [xloop lloop].
-  apply (xbody_lbody (xloop genv progname progver exec_out dir_list f) (lloop genv progname progver exec_out dir_list f) (length s));
+  apply (xbody_lbody (xloop genv progname progver exec_out dir_list extra ufn f) (lloop genv progname progver exec_out dir_list extra ufn f) (length s));
     [ | | apply le_n | assumption | assumption | assumption | assumption | assumption].
   - intros s0 rest0 pre0 tl0 q0 q3 st0 H0 H1 H2 H3 H4 H5. apply IH; auto. lia.
   - intros s0 pre0 q0 q3 st0 H0 H1 H2 H3. apply lloop_ok; auto. lia.
